@@ -91,11 +91,13 @@ Proof.
     destruct (N.eqb_spec g f); [contradiction | reflexivity].
 Qed.
 
+Lemma decls_single : forall f x nm, decls [(f, x)] nm = mine nm f x.
+Proof. intros. unfold decls. cbn [flat_map fst snd]. apply app_nil_r. Qed.
+
 Lemma glob_r_add : forall s a f x, glob_R s a -> ~ In f (keys _ a) -> NoDup (keys _ a) -> glob_R (g_add f x s) (a ++ [(f, x)]).
 Proof.
   intros s a f x [Hnd HR] _ _. split; [apply (g_add_spec f x s 0 Hnd)|].
-  intro nm. destruct (g_add_spec f x s nm Hnd) as [_ H]. rewrite H, HR, decls_app.
-  unfold decls at 2. cbn [flat_map fst snd]. rewrite app_nil_r. apply ne_opt_app.
+  intro nm. destruct (g_add_spec f x s nm Hnd) as [_ H]. rewrite H, HR, decls_app, decls_single. apply ne_opt_app.
 Qed.
 
 Lemma glob_r_remove : forall s a f, glob_R s a -> NoDup (keys _ a) -> glob_R (g_remove f s) (al_remove _ f a).
@@ -170,7 +172,7 @@ Lemma glob_r_move_obs : forall a f x q, NoDup (keys _ a) -> In (f, x) a -> glob_
   glob_aobs (al_remove _ f a ++ [(f, x)]) q = glob_aobs a q.
 Proof.
   intros a f x q Hnd Hin Hex. destruct (split_entry_g a f x Hnd Hin) as [l1 [l2 [Ha Hr]]].
-  unfold glob_aobs. f_equal. rewrite Hr, Ha, !decls_app. unfold decls at 3 5. cbn [flat_map fst snd]. rewrite !app_nil_r.
+  unfold glob_aobs. f_equal. rewrite Hr, Ha, !decls_app. change ((f, x) :: l2) with ([(f, x)] ++ l2). rewrite !decls_app, !decls_single.
   destruct (mine q f x) as [|d r] eqn:E; [rewrite app_nil_r; reflexivity|].
   (* f declares q: no entry of l2 does *)
   assert (Hq : In q (map fst x)).
@@ -185,7 +187,7 @@ Proof.
     apply (Hex x g y q Hin Hga); [|exact Hq | exact Hy].
     intros ->. unfold keys in Hnd. rewrite Ha, map_app in Hnd. cbn [map fst] in Hnd.
     apply NoDup_remove_2 in Hnd. apply Hnd. apply in_or_app. right. change f with (fst (f, y)). apply in_map. exact Hg. }
-  rewrite H2, app_nil_r. reflexivity.
+  rewrite H2, !app_nil_r. reflexivity.
 Qed.
 
 Lemma glob_r_move_size : forall a f x, NoDup (keys _ a) -> In (f, x) a ->
@@ -193,7 +195,7 @@ Lemma glob_r_move_size : forall a f x, NoDup (keys _ a) -> In (f, x) a ->
 Proof.
   intros a f x Hnd Hin. destruct (split_entry_g a f x Hnd Hin) as [l1 [l2 [Ha Hr]]].
   unfold glob_asize. do 2 f_equal. apply nodup_length_ext. intro nm. rewrite Hr, Ha. unfold names.
-  rewrite !flat_map_app. cbn [flat_map]. rewrite !in_app_iff. cbn [In app]. rewrite app_nil_r. tauto.
+  rewrite !flat_map_app. cbn [flat_map]. rewrite !in_app_iff. cbn [In]. tauto.
 Qed.
 
 Definition glob_refinement : refinement _ _ _ _ glob_store :=
